@@ -504,12 +504,12 @@ func genDryWiring() {
 	// (`(fingerprint.NewSourcesChecker).OnError`: method OnError called on the value returned by
 	// fingerprint.NewSourcesChecker — whatever the local that holds it is called)
 	interesting := setOf("e.Logger.Prompt", "e.mkdir", "os.MkdirAll", "e.runCommand", "e.runDeferred",
-		"e.statusOnError", "(fingerprint.NewSourcesChecker).OnError", "execext.RunCommand", "fingerprint.IsTaskUpToDate",
+		"e.statusOnError", "(fingerprint.NewSourcesChecker).OnError", "e.recordFingerprint", "(fingerprint.NewSourcesChecker).IsUpToDate", "execext.RunCommand", "fingerprint.IsTaskUpToDate",
 		"e.areTaskPreconditionsMet", "e.runDeps", "e.RunTask", "e.ToEditorOutput", "e.Status",
 		"summary.PrintTask", "e.splitRegularAndWatchCalls")
 	var guards [][2]string
 	for _, fn := range []string{"Executor.RunTask", "Executor.runCommand", "Executor.mkdir", "Executor.Status",
-		"Executor.statusOnError", "Executor.ToEditorOutput", "Executor.ListTasks", "Executor.Run"} {
+		"Executor.statusOnError", "Executor.recordFingerprint", "Executor.ToEditorOutput", "Executor.ListTasks", "Executor.Run"} {
 		var kept []skEntry
 		for _, e := range walkSkeleton(root.funcDecl(fn), interesting) {
 			if e.kind == skCall || e.kind == skFunc {
@@ -668,7 +668,7 @@ func optionStores(p *pkgFiles, fn, key string) [][2]string {
 // ---- Table 2: FingerOrder
 
 func genFingerOrder() {
-	l := newLean("FingerOrder", "Order of the file-system / process effects and of the returns inside the fingerprint\ncheckers (guard chains as in DryWiring; entries `assign …` are stores into maps and\nappends; `swallowedErrReturns` lists the returns that sit directly under an err\ncondition yet do not return the err, as `return … | condition | source of that err`).")
+	l := newLean("FingerOrder", "Order of the file-system / process effects and of the returns inside the fingerprint\ncheckers (guard chains as in DryWiring; entries `assign …` are stores into maps and\nappends; `swallowedErrReturns` lists the returns that sit directly under an err\ncondition yet do not return the err, as `return … | condition | source of that err`;\na return that does hand the error on is listed in place as `propagate return …`).")
 	fp := loadDir("internal/fingerprint")
 	flattenLayout()
 	interesting := setOf("os.ReadFile", "os.WriteFile", "os.MkdirAll", "os.Create", "os.Chtimes", "os.Stat",
@@ -706,6 +706,11 @@ func genFingerOrder() {
 			case skErrReturn:
 				if e.swallow {
 					swal = append(swal, e)
+				} else {
+					// a return that hands the error on: listed IN PLACE (`propagate return …`, guards =
+					// `condition | source of that error`), so that its position relative to the writes is pinned
+					e.what = "propagate " + e.what
+					table = append(table, e)
 				}
 			}
 		}
